@@ -179,7 +179,45 @@ def _nice_model(ctx, extra=None):
         s.pop()
 
 
+# Watchdog: a solver call that does not honour its own timeout (seen once: a worker of C05 spent 16 CPU-minutes in
+# one call while the machine was overloaded) is interrupted from a second thread (Z3_interrupt); the call then gives
+# up, which the engine counts as `unknown` / a lost path -- inconclusive, never a verdict.
+_WATCH = {"t0": None, "limit": None, "thread": None, "fired": 0}
+
+
+def _watchdog_loop():
+    import z3
+    while True:
+        time.sleep(1.0)
+        t0, limit = _WATCH["t0"], _WATCH["limit"]
+        if t0 is not None and time.time() - t0 > limit:
+            _WATCH["fired"] += 1
+            try:
+                z3.main_ctx().interrupt()
+            except Exception:
+                pass
+            _WATCH["t0"] = time.time()      # give the path time to unwind; interrupt again if it is still stuck
+
+
+def _watch(limit):
+    import threading
+    if _WATCH["thread"] is None or _WATCH.get("pid") != os.getpid():
+        th = threading.Thread(target=_watchdog_loop, daemon=True)
+        _WATCH["thread"], _WATCH["pid"] = th, os.getpid()
+        th.start()
+    _WATCH["limit"] = limit
+    _WATCH["t0"] = time.time() if limit is not None else None
+
+
 def run_one(h, prefix, opts):
+    _watch(2.0 * (h.path_budget_s or opts.path_budget_s) + 2.0 * (h.query_timeout_ms or opts.query_timeout_ms) / 1000.0 + 30.0)
+    try:
+        return _run_one(h, prefix, opts)
+    finally:
+        _watch(None)
+
+
+def _run_one(h, prefix, opts):
     load.unbind()     # drops stubs a previous path may have installed
     load.bind()
     key = (h.module, h.tier, h.name)
